@@ -78,3 +78,10 @@ PROPS["L2W"] = dict(
     kani=dict(quick=["weak_h.rs::" + h for h in _C09 + _L2W]),
     trusted_base=[A_TOOLS], kani_flags=["--no-assertion-reach-checks"],
 )
+
+_DISP = ["dispose_chain_level", "dispose_leaf_any_depth", "dispose_null", "dispose_entry", "c06_chain_induction_step"]
+PROPS["DISP"] = dict(
+    title="(dev) dispose_general_node one-level contracts", level="proof", modules=["utils_state_h.rs", "utils_dispose_h.rs", "internal_h.rs"], contract_groups=["state", "modular"],
+    kani=dict(quick=["utils_dispose_h.rs::" + h for h in _DISP]),
+    trusted_base=[A_TOOLS], kani_flags=["--no-assertion-reach-checks"],
+)
